@@ -187,11 +187,16 @@ def body_E2(ctx):
     received = []
     Logger._destinations.add(received.append)
     n = sh.get("threads", 2)
-    raises = ctx.flag("f raises")
+    raises = ctx.choose(3, "f returns / raises an Exception / raises a non-Exception BaseException (like SystemExit in a worker)")
     ran = []
 
     class FErr(Exception):
         pass
+
+    if raises == 2:
+
+        class FErr(BaseException):  # noqa: F811
+            pass
 
     err = FErr("from f")
 
